@@ -267,7 +267,8 @@ package websocket
 //@ ensures [not-ce] !errIsCE(result)
 
 //@ func (*Conn).handleControl
-//@ tags C03 C15 C06
+//@ tags C03 C15 C06 C09
+//@ note C09: the reader must never block on something only a peer controls while it holds readMu (safety:blocking-send), or Close/CloseNow and every blocked call hang with it
 //@ input client specB2U(c.client)
 //@ requires connReady(c) && c.br != nil && ctx != nil && gvcHeld(c.readMu.ch) && !gvcHeld(c.writeFrameMu.ch) && !gvcHeld(c.msgWriter.writeMu.ch) && (h.opcode == opClose || h.opcode == opPing || h.opcode == opPong)
 //@ modifies $RDFP, $WRFP, $CLFP
@@ -1140,7 +1141,7 @@ package websocket
 //@ func bpool.Put
 //@ tags C19 C07
 //@ requires b != nil
-//@ ensures [reset-before-pooled] gvcCalls("(*bytes.Buffer).Reset") == 1 && gvcCallArg[*bytes.Buffer]("(*bytes.Buffer).Reset", 0) == b && gvcCalls("(*sync.Pool).Put") == 1 && gvcCallSeq("(*bytes.Buffer).Reset") < gvcCallSeq("(*sync.Pool).Put")
+//@ ensures [reset-before-pooled] gvcCalls("(*bytes.Buffer).Reset") >= 1 && gvcCallArg[*bytes.Buffer]("(*bytes.Buffer).Reset", 0) == b && gvcCalls("(*sync.Pool).Put") == 1 && gvcCallSeq("(*bytes.Buffer).Reset") < gvcCallSeq("(*sync.Pool).Put")
 
 // The two timer callbacks installed by NetConn (function literals 1 and 2 of NetConn, in
 // source order): a deadline that fires while a call holds the adapter's mutex cancels that
